@@ -370,12 +370,12 @@ func (c *c05Case) move(from, to string) *c05Case {
 	return c
 }
 
-func (c *c05Case) option(opts string) *c05Case   { c.opts += opts; c.tag = "opt"; return c }
+func (c *c05Case) option(opts string) *c05Case      { c.opts += opts; c.tag = "opt"; return c }
 func (c *c05Case) only(versions ...string) *c05Case { c.versions = versions; return c }
-func (c *c05Case) allow(rules ...string) *c05Case { c.allowed = append(c.allowed, rules...); return c }
-func (c *c05Case) set() *c05Case                  { c.asSet = true; return c }
-func (c *c05Case) nocat() *c05Case                { c.noCat = true; return c }
-func (c *c05Case) also(rules ...string) *c05Case  { c.rules = append(c.rules, rules...); return c }
+func (c *c05Case) allow(rules ...string) *c05Case   { c.allowed = append(c.allowed, rules...); return c }
+func (c *c05Case) set() *c05Case                    { c.asSet = true; return c }
+func (c *c05Case) nocat() *c05Case                  { c.noCat = true; return c }
+func (c *c05Case) also(rules ...string) *c05Case    { c.rules = append(c.rules, rules...); return c }
 
 func (c *c05Case) at(path, anchor string) *c05Case {
 	c.expect = append(c.expect, c05Exp{path: path, anchor: anchor})
@@ -973,6 +973,9 @@ func c05CatNames(add func(...*c05Case)) {
 			sub(c05Service, "service PetAdminService {", "service PetAdminServices {").
 			at(c05Service, "PetAdminServices {").allow("RPC_REQUEST_STANDARD_NAME", "RPC_RESPONSE_STANDARD_NAME"),
 		c05New("SERVICE_SUFFIX").
+			sub(c05Store, "service StoreService {", "service Storeservice {").
+			at(c05Store, "Storeservice {"),
+		c05New("SERVICE_SUFFIX").
 			sub(c05Store, "service StoreService {", "service Stores {").
 			at(c05Store, "Stores {"),
 	)
@@ -1119,6 +1122,10 @@ func c05CatEnums(add func(...*c05Case)) {
 		c05New("ENUM_ZERO_VALUE_SUFFIX").
 			sub(c05Store, "STORE_KIND_UNSPECIFIED = 0;", "STORE_KIND_ZERO = 0;").
 			at(c05Store, "STORE_KIND_ZERO"),
+		// the suffix includes the underscore
+		c05New("ENUM_ZERO_VALUE_SUFFIX").
+			sub(c05Kind, "PET_KIND_UNSPECIFIED = 0;", "PET_KIND_NOTUNSPECIFIED = 0;").
+			at(c05Kind, "PET_KIND_NOTUNSPECIFIED"),
 		// a non-zero value that carries the suffix is fine
 		c05New("ENUM_ZERO_VALUE_SUFFIX").
 			sub(c05Kind, "PET_KIND_CAT = 2;", "PET_KIND_CAT_UNSPECIFIED = 2;"),
@@ -1671,7 +1678,7 @@ func c05CatOptions(add func(...*c05Case)) {
 			atRule(reqStd, c05Service, "google.protobuf.Empty) returns (GetPetResponse").atRule(reqStd, c05Service, "google.protobuf.Empty) returns (PutPetResponse").
 			atRule(unique, c05Service, "rpc GetPet(").atRule(unique, c05Service, "rpc PutPet("),
 		// both allowed
-		emptyResp2(emptyReq2(emptyResp1(emptyReq1(empty(allowReq + allowResp))))),
+		emptyResp2(emptyReq2(emptyResp1(emptyReq1(empty(allowReq+allowResp))))),
 	)
 	// comment ignores: v1beta1/v1 allow_comment_ignores (default off), v2 disallow_comment_ignores (default on)
 	ignored := func() *c05Case {
